@@ -24,9 +24,10 @@ META = {
                   "dulwich Commit objects (vm_compute) + byte-exact round-trip oracle"),
     "level_text": ("export(import c) = c (field by field, hence identical serialisation and SHA-1) proved for every commit "
                    "satisfying an executable, field-local guard (UTF-8/Latin-1 or no encoding header, person identifiers "
-                   "already in 'name <email>' form, a message, recognised HG extras without line-break characters); "
-                   "machine-checked refutations for each class of commit that import accepts but that does not round-trip "
-                   "(missing message, 'encoding false', rewritten identifiers, several authors, line breaks in extras); "
+                   "already in 'name <email>' form, recognised HG extras whose values contain no newline; a missing message and "
+                   "'encoding false' are covered since the repairs bd50aba/5f2eb02/e6f8bec); "
+                   "machine-checked refutations for each class of commit that import accepts but that still does not round-trip "
+                   "(rewritten identifiers, several authors, a newline inside an HG extra value); "
                    "revision id is a function of the SHA alone and invertible. Partial: codecs other than UTF-8/Latin-1 are "
                    "covered by the correspondence run and the oracle only."),
     "level_note": ("Trusted: Coq kernel, vm_compute, the hand model (tied by the correspondence run), dulwich's Commit/Tag "
@@ -45,7 +46,7 @@ META = {
                     "parent lookup = object_store._lookup_revision_sha1 with an empty id map"],
     "rule": ("commits from a grammar over all modelled fields (encodings, identifiers incl. malformed ones, timezones incl. "
              "-0000/+0545/-0330/double negative, gpgsig, mergetags, HG extras, unknown extras, message variants incl. missing, "
-             "UTF-8 boundary byte strings) + exhaustive small strings for fix_person_identifier and splitlines; "
+             "UTF-8 boundary byte strings) + exhaustive small strings for fix_person_identifier and the git-extra line split; "
              "non-trivial = import accepted the commit and at least one optional feature is present"),
 }
 SHARD = 120
@@ -178,7 +179,8 @@ def corpus():
     T = _tag()
     out = [
         mk(),
-        # witnesses of the refutation theorems / candidate findings
+        # [1], [2], [5]: witnesses of the findings repaired by bd50aba / 5f2eb02 / e6f8bec -- must PASS now;
+        # [3], [4], [6]-[8]: witnesses of the still-known C34-ident-rewritten
         mk(message=None),
         mk(encoding=b"false"),
         mk(author=b"A<a>"),
@@ -343,7 +345,7 @@ def impl(inp):
             return Err("ValueError")
     if inp["kind"] == "lines":
         return [s.encode("utf-8", "surrogateescape")
-                for s in bytes(inp["t"]).decode("utf-8", "surrogateescape").splitlines()]
+                for s in bytes(inp["t"]).decode("utf-8", "surrogateescape").removesuffix("\n").split("\n")]
     if inp["kind"] == "meta":
         return _impl_meta(inp)
     m = BzrGitMappingv1()
@@ -458,7 +460,7 @@ def model_term(inp):
     if inp["kind"] == "fix":
         return "run_fix_person " + coq_bytes(bytes(inp["t"]))
     if inp["kind"] == "lines":
-        return "run_splitlines " + coq_bytes(bytes(inp["t"]))
+        return "run_extra_lines " + coq_bytes(bytes(inp["t"]))
     if inp["kind"] == "meta":
         return "run_meta " + coq_bytes(bytes(inp["m"]))
     e = inp["encoding"]
@@ -554,19 +556,12 @@ def _lossy_codec(inp):
 def finding_matches(fid, inp, obs, why):
     if inp.get("kind") != "commit":
         return False
-    if fid == "C34-missing-message":
-        return inp["message"] is None
-    if fid == "C34-encoding-false":
-        return inp["encoding"] is not None and bytes(inp["encoding"]) == b"false"
     if fid == "C34-ident-rewritten":
         a, c = bytes(inp["author"]), bytes(inp["committer"])
         return not _ident_form(a) or not _ident_form(c) or _author_cut(a)
     if fid == "C34-extra-linebreak":
-        for k, v in inp["extra"]:
-            line = (bytes(k) + b" " + bytes(v)).decode("utf-8", "surrogateescape")
-            if line.splitlines() != [line]:
-                return True
-        return False
+        # residue after e6f8bec: only a "\n" inside a header value (multi-line header) still breaks
+        return any(b"\n" in bytes(v) for _k, v in inp["extra"])
     if fid == "C34-codec-not-byte-preserving":
         return _lossy_codec(inp)
     return False
